@@ -7,6 +7,7 @@ import (
 
 	"verif/enum"
 	"verif/ref"
+	"verif/spec"
 )
 
 func prepareVec(enum.AnyBatch) {}
@@ -24,3 +25,18 @@ func hookEngine(f func()) func() { return func() {} }
 func engineLive() int { return 0 }
 
 func vecMergeOracleFile(path string, exp *ref.Content) string { return "" }
+
+// memCloseVictim returns the batch of the in-memory segment that is closed and a
+// function that exercises its caches first.
+func memCloseVictim() (spec.Batch, func(segment.Segment, *ref.Content) string) {
+	return enum.SynMenu()[3], func(s segment.Segment, exp *ref.Content) string {
+		// fill the synonym cache
+		ts := s.(segment.ThesaurusSegment)
+		for name := range exp.Thes {
+			if _, err := ts.Thesaurus(name); err != nil {
+				return err.Error()
+			}
+		}
+		return ""
+	}
+}
